@@ -26,7 +26,7 @@ from slimta.relay import Relay
 ID = 'C04'
 LEVEL = 'fault_enumeration'
 RULE = ('Hypothesis histories of storage operations as the Queue issues them (write, increment_attempts, set_timestamp, '
-        'set_recipients_delivered, remove; optionally a complete load() before the k-th rename / temp-file creation / unlink / chunk write of the next operation) over 1..4 messages with bodies of 1..4 chunks (chunk size 64), tmp_dir separate from or '
+        'set_recipients_delivered, remove; optionally an I/O error (ENOSPC) or a complete load() before the k-th rename / temp-file creation / unlink / chunk write of the next operation) over 1..4 messages with bodies of 1..4 chunks (chunk size 64), tmp_dir separate from or '
         'equal to env_dir; for every history EVERY crash point is taken: a snapshot before each file-system effect (temp-file '
         'creation, each chunk write, rename, unlink) and after the last. Each snapshot is recovered by a fresh DiskStorage and a '
         'fresh Queue. One case = one (history, crash point). non-trivial = crash inside an operation on one message while another '
@@ -159,15 +159,43 @@ def run_history(ops, same_tmp):
                     except Exception as e:
                         out.append(('C04:overlapped-scan-raises:%s' % type(e).__name__, 'load() overlapping op#%d %r raised %r' % (i, op, e)))
             REC.hook = hook
+        ioerr_at = [None]
+        injected = [False]
+
+        def arm_ioerr():
+            # the operation meets an I/O error (e.g. ENOSPC) before its k-th effect of the given kind; the process lives on
+            if ioerr_at[0] is None:
+                return
+            (name_, k_), n_ = ioerr_at[0], [0]
+            ioerr_at[0] = None
+
+            def hook(effect):
+                if name_ not in ('any', effect):
+                    return
+                n_[0] += 1
+                if n_[0] == k_ + 1:
+                    REC.hook = None
+                    injected[0] = True
+                    raise OSError(28, 'No space left on device (injected)')
+            REC.hook = hook
         for i, op in enumerate(ops):
             REC.op_index = i
             REC.hook = None
+            injected[0] = False
             kind = op[0]
+            if kind == 'ioerr':
+                ioerr_at[0] = (op[1], int(op[2]))
+                scan_at[0] = None
+                history.append(None)
+                continue
             if kind == 'scan':
                 scan_at[0] = (op[1], int(op[2]))       # before the k-th effect of that kind ('any': k-th effect) of the next operation
                 history.append(None)
                 continue
-            arm_scan()
+            if ioerr_at[0] is not None:
+                arm_ioerr()
+            else:
+                arm_scan()
             if kind == 'write':
                 k = len(order)
                 if k >= 4:
@@ -181,7 +209,13 @@ def run_history(ops, same_tmp):
                 msgs[tag] = m
                 order.append(tag)
                 before = None
-                m['id'] = store.write(env, ts)
+                try:
+                    m['id'] = store.write(env, ts)
+                except OSError:
+                    if not injected[0]:
+                        raise
+                    history.append(None)        # never acknowledged: whatever it left behind must not disturb the others
+                    continue
                 m['state'] = {'ts': ts, 'attempts': 0, 'delivered': []}
                 history.append((tag, before, dict(m['state'])))
                 continue
@@ -191,12 +225,25 @@ def run_history(ops, same_tmp):
                 continue
             m = msgs[live[op[1] % len(live)]]
             before = dict(m['state'])
+            failed = False
+
+            def guarded(fn, *a):
+                try:
+                    fn(*a)
+                    return True
+                except Exception as e:
+                    if isinstance(e, OSError) and injected[0]:
+                        return False
+                    # the storage itself is broken for the running process (e.g. a meta file destroyed by an earlier failed write)
+                    out.append(('C04:operation-raises:%s' % type(e).__name__,
+                                'op#%d %r on %s raised %r (history %r)' % (i, op, m['tag'], e, ops[:i + 1])))
+                    return False
             if kind == 'incr':
-                store.increment_attempts(m['id'])
-                m['state'] = dict(before, attempts=before['attempts'] + 1)
+                if guarded(store.increment_attempts, m['id']):
+                    m['state'] = dict(before, attempts=before['attempts'] + 1)
             elif kind == 'ts':
-                store.set_timestamp(m['id'], float(op[2]))
-                m['state'] = dict(before, ts=float(op[2]))
+                if guarded(store.set_timestamp, m['id'], float(op[2])):
+                    m['state'] = dict(before, ts=float(op[2]))
             elif kind == 'deliver':
                 # a marking round: indexes are relative to the recipient list as get() currently returns it
                 outstanding = [k_ for k_ in range(len(m['rcpts'])) if k_ not in before['delivered']]
@@ -209,12 +256,14 @@ def run_history(ops, same_tmp):
                 if not rel:
                     history.append(None)
                     continue
-                store.set_recipients_delivered(m['id'], list(rel))
-                m['state'] = dict(before, delivered=sorted(before['delivered'] + [outstanding[r] for r in rel]))
+                if guarded(store.set_recipients_delivered, m['id'], list(rel)):
+                    m['state'] = dict(before, delivered=sorted(before['delivered'] + [outstanding[r] for r in rel]))
             elif kind == 'remove':
-                store.remove(m['id'])
+                guarded(store.remove, m['id'])          # a removal that failed half-way counts as started: presence is optional
                 m['state'] = None
             history.append((m['tag'], before, None if m['state'] is None else dict(m['state'])))
+            if out:
+                break
         REC.hook = None
         REC.op_index = len(ops)
         REC.snap('end')
@@ -537,6 +586,7 @@ _op = st.one_of(
     st.tuples(st.just('deliver'), st.integers(0, 3), st.lists(st.integers(0, 3), min_size=1, max_size=2)).map(list),
     st.tuples(st.just('remove'), st.integers(0, 3)).map(list),
     st.tuples(st.just('scan'), st.sampled_from(['rename', 'rename', 'mkstemp', 'unlink', 'chunk-write', 'any']), st.integers(0, 2)).map(list),
+    st.tuples(st.just('ioerr'), st.sampled_from(['rename', 'mkstemp', 'unlink', 'chunk-write', 'chunk-write', 'any']), st.integers(0, 2)).map(list),
 )
 _case = st.tuples(st.tuples(_w, st.lists(_op, max_size=11)).map(lambda t: [t[0]] + t[1]), st.booleans())
 
@@ -598,9 +648,9 @@ def replay(case):
                 ops.append(['write', max(1, min(4, int(o[1]))), max(1, min(4, int(o[2]))), bool(o[3]), float(o[4])])
             elif o[0] in ('incr', 'remove'):
                 ops.append([o[0], int(o[1])])
-            elif o[0] == 'scan':
+            elif o[0] in ('scan', 'ioerr'):
                 if o[1] in ('rename', 'mkstemp', 'unlink', 'chunk-write', 'any'):
-                    ops.append(['scan', o[1], max(0, int(o[2]))])
+                    ops.append([o[0], o[1], max(0, int(o[2]))])
             elif o[0] == 'ts':
                 ops.append(['ts', int(o[1]), float(o[2])])
             elif o[0] == 'deliver':
